@@ -9,9 +9,10 @@ use crate::common::*;
 use crate::stubs;
 use ntp_proto::{CipherProvider, NoCipher, NtpPacket};
 
-/// Unstructured input: 52 symbolic bytes, symbolic length 0..=52.
+/// Unstructured input: 52 symbolic bytes, symbolic length 0..=52 (backing array 56 bytes: see
+/// common.rs on one-past-the-end pointers).
 fn unstructured<C: CipherProvider + ?Sized>(cipher: &C) {
-    let buf: [u8; 52] = kani::any();
+    let buf: [u8; 56] = kani::any();
     let len: usize = kani::any();
     kani::assume(len <= 52);
     let version = (buf[0] >> 3) & 7;
@@ -24,33 +25,37 @@ fn unstructured<C: CipherProvider + ?Sized>(cipher: &C) {
             assert!(version == 3 || version == 4, "no NTPv5 packet fits into 52 bytes");
             assert!(!*cookie, "no cookie without an NTS field");
         }
-        Outcome::DecryptFailed(_) => assert!(len >= 56, "an NTS field needs at least 8 bytes"),
+        Outcome::DecryptFailed(_) => assert!(false, "an NTS field needs more than 4 bytes"),
         Outcome::Rejected => {}
     }
-    kani::cover!(matches!(r, Outcome::Accepted(..)) && len == 48 && version == 3, "v3 header accepted");
-    kani::cover!(matches!(r, Outcome::Accepted(..)) && len == 52 && version == 4, "v4 header + crypto-NAK accepted");
-    kani::cover!(matches!(r, Outcome::Rejected) && version == 5 && len == 52, "v5 rejected");
-    kani::cover!(matches!(r, Outcome::Rejected) && len == 0, "empty rejected");
-    kani::cover!(matches!(r, Outcome::Rejected) && len == 47, "short header rejected");
+    let code = r.code();
+    kani::cover!(code == ACC && len == 48 && version == 3, "v3 header accepted");
+    kani::cover!(code == ACC && len == 52 && version == 4, "v4 header + crypto-NAK accepted");
+    kani::cover!(code == REJ && version == 5 && len == 52, "v5 rejected");
+    kani::cover!(code == REJ && len == 0, "empty rejected");
+    kani::cover!(code == REJ && len == 47, "short header rejected");
+    kani::cover!(code == REJ && version == 5 && len == 48 && buf[12] > 3, "v5 header: bad timescale");
 }
 
-harness! {
+pharness! {
     #[kani::unwind(8)]
     fn c23_u_nocipher() {
         unstructured(&NoCipher);
     }
 }
-harness! {
+pharness! {
     #[kani::unwind(8)]
     fn c23_u_client() {
         symbolic_oracle();
         unstructured(&OracleCipher);
     }
 }
-harness! {
+pharness! {
     #[kani::unwind(8)]
     #[kani::stub(<ntp_proto::verif::packet::crypto::AesSivCmac512 as ntp_proto::Cipher>::decrypt, crate::common::aes512_decrypt_stub)]
     #[kani::stub(<ntp_proto::verif::packet::crypto::AesSivCmac256 as ntp_proto::Cipher>::decrypt, crate::common::aes256_decrypt_stub)]
+    #[kani::stub(zeroize::barrier::optimization_barrier, crate::common::zeroize_barrier_stub)]
+    #[kani::stub(zeroize::volatile_set, crate::common::zeroize_volatile_set_stub)]
     fn c23_u_keyset() {
         symbolic_oracle();
         symbolic_cookie_plaintext();
@@ -60,92 +65,340 @@ harness! {
     }
 }
 
-// ------------------------------------------------------------------ probes (not registered)
-pharness! {
-    #[kani::unwind(30)]
-    fn probe_a() {
-        // any version, one field with any type, length field 4..=16 symbolic, trailer 0..=4
-        let img: Img<72, 1> = image(None, [f(Ty::Any, 4, 16)], 0, 4);
-        let r = decode(&img.buf[..img.len], &NoCipher);
-        kani::cover!(matches!(r, Outcome::Accepted(..)), "accepted");
+// ------------------------------------------------------------------ layout templates
+/// Decode one template image; returns the outcome code. The decoded packet is not dropped
+/// (dropping three `Vec<ExtensionField>` is the most expensive part of symbolic execution and is
+/// not part of the decoder).
+fn run<const N: usize, const K: usize, C: CipherProvider + ?Sized>(img: &Img<N, K>, cipher: &C) -> u8 {
+    let r = decode(&img.buf[..img.len], cipher);
+    let code = r.code();
+    if let Outcome::Accepted(p, _) = &r {
+        // wire format: an accepted packet carries at most as many fields as fit
+        let n = ntp_proto::verif::packet::packet_untrusted(p).len()
+            + ntp_proto::verif::packet::packet_authenticated(p).len();
+        assert!(n * 4 <= img.len - 48, "every field occupies at least 4 bytes");
     }
+    std::mem::forget(r);
+    code
 }
-pharness! {
-    #[kani::unwind(30)]
-    fn probe_b() {
-        // v5, draft + one field any type, concrete length 16
-        let img: Img<96, 2> = image(Some(5), [DRAFT_F, f(Ty::Any, 16, 16)], 0, 0);
-        let r = decode(&img.buf[..img.len], &NoCipher);
-        kani::cover!(matches!(r, Outcome::Accepted(..)), "accepted");
+
+const V4C: u8 = 0x23; // leap 0, version 4, mode 3 (client)
+const V4S: u8 = 0xE4; // leap 3, version 4, mode 4 (server)
+const V5Q: u8 = 0x2B; // version 5 request
+const V5R: u8 = 0x6C; // leap 1, version 5 response
+const T_OTHER: u16 = 0x1234;
+
+/// Build one concrete layout (see common::layout), optionally overwrite the length word of field
+/// `relen.0` with `relen.1` (impossible lengths) and the nonce/ciphertext length words of the NTS
+/// field `words.0`, and decode it. Field types are concrete per image: a symbolic type merges
+/// nine enum variants and costs ~50 s of symbolic execution per image instead of ~4 s (measured).
+/// Images that make the decoder fail cost ~600k SSA steps each (error values are niche-encoded
+/// unions whose discriminant CBMC cannot constant-fold after a variant was written through another
+/// member), so harnesses hold at most two of them.
+fn one<const N: usize, const K: usize, C: CipherProvider + ?Sized>(
+    b0: u8,
+    v5ctl: Option<(u8, u8)>,
+    fields: [F; K],
+    trailer: usize,
+    cut: usize,
+    relen: Option<(usize, u16)>,
+    words: Option<(usize, u16, u16)>,
+    cipher: &C,
+) -> u8 {
+    let mut img: Img<N, K> = layout(b0, v5ctl, fields, trailer, cut);
+    if let Some((k, l)) = relen {
+        pin16(&mut img.buf, img.off[k] + 2, l);
     }
-}
-pharness! {
-    #[kani::unwind(30)]
-    fn probe_c() {
-        // v5, draft + one field any type, symbolic length 4..=20
-        let img: Img<100, 2> = image(Some(5), [DRAFT_F, f(Ty::Any, 4, 20)], 0, 0);
-        let r = decode(&img.buf[..img.len], &NoCipher);
-        kani::cover!(matches!(r, Outcome::Accepted(..)), "accepted");
+    if let Some((k, nl, cl)) = words {
+        pin16(&mut img.buf, img.off[k] + 4, nl);
+        pin16(&mut img.buf, img.off[k] + 6, cl);
     }
+    run(&img, cipher)
 }
-pharness! {
-    #[kani::unwind(30)]
-    fn probe_d() {
-        // v4, two fields any type, concrete lengths, 20-byte MAC
-        let img: Img<120, 2> = image(Some(4), [f(Ty::Any, 16, 16), f(Ty::Any, 28, 28)], 24, 24);
-        let r = decode(&img.buf[..img.len], &NoCipher);
-        kani::cover!(matches!(r, Outcome::Accepted(..)), "accepted");
-    }
+const fn fld(ty: u16, l: u16) -> F {
+    f(Ty::Is(ty), l, l)
 }
-pharness! {
-    #[kani::unwind(30)]
-    fn probe_e() {
-        // v4, one field any type, symbolic length 4..=28, trailer 0..=24
-        let img: Img<104, 1> = image(Some(4), [f(Ty::Any, 4, 28)], 0, 24);
-        let r = decode(&img.buf[..img.len], &NoCipher);
-        kani::cover!(matches!(r, Outcome::Accepted(..)), "accepted");
-    }
-}
-pharness! {
-    #[kani::unwind(30)]
-    fn probe_n1() {
-        // v4 header + two unknown fields (16, 28), symbolic bytes elsewhere
-        let mut buf: [u8; 96] = kani::any();
-        buf[0] = 0x23;
-        pin_ef(&mut buf, 48, 0x1234, 16);
-        pin_ef(&mut buf, 64, 0x1235, 28);
-        match decode(&buf[..92], &NoCipher) {
-            Outcome::Accepted(p, _) => {
-                let u = ntp_proto::verif::packet::packet_untrusted(&p);
-                assert!(count_to(u.len()) == 2);
+
+/// Key contexts. `$body` is evaluated with `$c` bound to the provider.
+macro_rules! with_nocipher {
+    ($n:ident, $unw:expr, |$c:ident| $body:block) => {
+        pharness! {
+            #[kani::unwind($unw)]
+            fn $n() {
+                let $c = &NoCipher;
+                $body
             }
-            _ => assert!(false),
         }
-    }
+    };
 }
-pharness! {
-    #[kani::unwind(30)]
-    fn probe_n2() {
-        // v5 header + draft + UID 16, zero bytes elsewhere
-        let mut buf = [0u8; 96];
-        buf[0] = 0x2B;
-        pin_draft(&mut buf, 48);
-        pin_ef(&mut buf, 76, T_UID, 16);
-        match decode(&buf[..92], &NoCipher) {
-            Outcome::Accepted(p, _) => {
-                let u = ntp_proto::verif::packet::packet_untrusted(&p);
-                assert!(count_to(u.len()) == 2);
+macro_rules! with_client {
+    ($n:ident, $unw:expr, |$c:ident| $body:block) => {
+        pharness! {
+            #[kani::unwind($unw)]
+            fn $n() {
+                symbolic_oracle();
+                let $c = &OracleCipher;
+                $body
             }
-            _ => assert!(false),
         }
-    }
+    };
 }
-fn count_to(n: usize) -> usize {
-    let mut c = 0;
-    let mut i = 0;
-    while i < n {
-        c += 1;
-        i += 1;
-    }
-    c
+macro_rules! with_keyset {
+    ($n:ident, $unw:expr, |$c:ident| $body:block) => {
+        pharness! {
+            #[kani::unwind($unw)]
+            #[kani::stub(<ntp_proto::verif::packet::crypto::AesSivCmac512 as ntp_proto::Cipher>::decrypt, crate::common::aes512_decrypt_stub)]
+            #[kani::stub(<ntp_proto::verif::packet::crypto::AesSivCmac256 as ntp_proto::Cipher>::decrypt, crate::common::aes256_decrypt_stub)]
+            #[kani::stub(zeroize::barrier::optimization_barrier, crate::common::zeroize_barrier_stub)]
+            #[kani::stub(zeroize::volatile_set, crate::common::zeroize_volatile_set_stub)]
+            fn $n() {
+                symbolic_oracle();
+                symbolic_cookie_plaintext();
+                let id_offset: u32 = kani::any();
+                let ks = real_keyset(id_offset);
+                let $c = &ks;
+                $body
+            }
+        }
+    };
 }
+
+// ================================================================== NTPv4, no keys
+// RFC 7822: fields are parsed only while more than 24 bytes remain; the rest (4..=24 bytes) is a MAC.
+with_nocipher!(c23_t_v4_ok_n, 30, |c| {
+    let a = one::<80, 1, _>(V4C, None, [fld(T_UID, 28)], 0, 0, None, None, c);
+    let d = one::<104, 1, _>(V4C, None, [fld(T_COOKIE, 28)], 24, 0, None, None, c);
+    let e = one::<80, 1, _>(V4S, None, [fld(T_OTHER, 4)], 24, 0, None, None, c);
+    let g = one::<80, 1, _>(V4C, None, [fld(T_DRAFT, 8)], 17, 0, None, None, c);
+    let h = one::<80, 1, _>(V4C, None, [fld(T_REFID_REQ, 24)], 4, 0, None, None, c);
+    let p = one::<80, 1, _>(V4S, None, [fld(T_PLACEHOLDER, 4)], 24, 0, None, None, c);
+    assert!(a == ACC && d == ACC && e == ACC && g == ACC && h == ACC && p == ACC, "well-formed v4 packets with opaque fields (+ MAC of 4/17/24 bytes) are accepted");
+    kani::cover!(a == ACC, "reached");
+});
+/// quick-tier representatives
+with_nocipher!(c23_t_v4_q_n, 30, |c| {
+    let a = one::<80, 1, _>(V4C, None, [fld(T_UID, 28)], 0, 0, None, None, c);
+    let d = one::<104, 1, _>(V4S, None, [fld(T_COOKIE, 28)], 24, 0, None, None, c);
+    assert!(a == ACC && d == ACC, "well-formed v4 packets are accepted");
+    kani::cover!(a == ACC, "reached");
+});
+with_nocipher!(c23_t_v5_q_n, 30, |c| {
+    let c5 = one::<100, 2, _>(V5Q, Some((1, 1)), [DRAFT_F, fld(T_COOKIE, 5)], 0, 0, None, None, c);
+    let c17 = one::<100, 2, _>(V5R, Some((0, 1)), [fld(T_OTHER, 17), DRAFT_F], 0, 0, None, None, c);
+    assert!(c5 == ACC && c17 == ACC, "well-formed v5 packets with odd field lengths are accepted");
+    kani::cover!(c17 == ACC, "reached");
+});
+with_nocipher!(c23_t_v4_multi_n, 30, |c| {
+    let a = one::<96, 2, _>(V4C, None, [fld(T_UID, 16), fld(T_COOKIE, 28)], 0, 0, None, None, c);
+    let b = one::<116, 2, _>(V4S, None, [fld(T_OTHER, 16), fld(T_UID, 28)], 20, 0, None, None, c);
+    let d = one::<112, 3, _>(V4C, None, [fld(T_UID, 16), fld(T_COOKIE, 16), fld(T_OTHER, 28)], 0, 0, None, None, c);
+    assert!(a == ACC && b == ACC && d == ACC, "two/three well-formed fields (+ MAC) are accepted");
+    kani::cover!(d == ACC, "reached");
+});
+with_nocipher!(c23_t_v4_placeholder_n, 30, |c| {
+    let a = one::<80, 1, _>(V4C, None, [fld(T_PLACEHOLDER, 28)], 0, 0, None, None, c);
+    kani::cover!(a == ACC, "all-zero placeholder accepted");
+    kani::cover!(a == REJ, "non-zero placeholder refused");
+});
+with_nocipher!(c23_t_v4_trunc_n, 30, |c| {
+    let b = one::<80, 1, _>(V4C, None, [fld(T_UID, 28)], 0, 1, None, None, c);
+    assert!(b == REJ, "a field one byte longer than the packet is refused");
+    kani::cover!(b == REJ, "reached");
+});
+with_nocipher!(c23_t_v4_long_n, 30, |c| {
+    let x = one::<88, 1, _>(V4S, None, [fld(T_COOKIE, 32)], 0, 4, None, None, c);
+    assert!(x == REJ, "a field four bytes longer than the packet is refused");
+    kani::cover!(x == REJ, "reached");
+});
+with_nocipher!(c23_t_v4_multi_trunc_n, 30, |c| {
+    let x = one::<96, 2, _>(V4C, None, [fld(T_UID, 16), fld(T_UID, 28)], 0, 2, None, None, c);
+    assert!(x == REJ, "truncated second field refused");
+    kani::cover!(x == REJ, "reached");
+});
+macro_rules! v4_badlen {
+    ($n:ident, $l:expr) => {
+        with_nocipher!($n, 30, |c| {
+            let x = one::<80, 1, _>(V4C, None, [fld(T_UID, 28)], 0, 0, Some((0, $l)), None, c);
+            assert!(x == REJ, "impossible length word refused");
+            kani::cover!(x == REJ, "reached");
+        });
+    };
+}
+v4_badlen!(c23_t_v4_len0_n, 0);
+v4_badlen!(c23_t_v4_len3_n, 3);
+v4_badlen!(c23_t_v4_len30_n, 30);
+v4_badlen!(c23_t_v4_lenmax_n, 0xFFFF);
+
+// ================================================================== NTPv5, no keys
+with_nocipher!(c23_t_v5_ok_n, 30, |c| {
+    let c4 = one::<100, 2, _>(V5Q, Some((0, 0)), [DRAFT_F, fld(T_UID, 4)], 0, 0, None, None, c);
+    let c5 = one::<100, 2, _>(V5Q, Some((1, 1)), [DRAFT_F, fld(T_COOKIE, 5)], 0, 0, None, None, c);
+    let c6 = one::<100, 2, _>(V5Q, Some((2, 2)), [DRAFT_F, fld(T_REFID_REQ, 6)], 0, 0, None, None, c);
+    let c7 = one::<100, 2, _>(V5R, Some((3, 4)), [DRAFT_F, fld(T_REFID_RESP, 7)], 0, 0, None, None, c);
+    let c8 = one::<100, 2, _>(V5R, Some((0, 7)), [fld(T_PADDING, 8), DRAFT_F], 0, 0, None, None, c);
+    let c17 = one::<100, 2, _>(V5Q, Some((0, 1)), [fld(T_OTHER, 17), DRAFT_F], 0, 0, None, None, c);
+    assert!(c4 == ACC && c5 == ACC && c6 == ACC && c7 == ACC && c8 == ACC && c17 == ACC, "well-formed v5 packets (odd field lengths, padded) are accepted");
+    kani::cover!(c17 == ACC, "reached");
+});
+with_nocipher!(c23_t_v5_placeholder_n, 30, |c| {
+    let a = one::<100, 2, _>(V5Q, Some((0, 1)), [DRAFT_F, fld(T_PLACEHOLDER, 17)], 0, 0, None, None, c);
+    kani::cover!(a == ACC, "all-zero placeholder accepted");
+    kani::cover!(a == REJ, "non-zero placeholder refused");
+});
+with_nocipher!(c23_t_v5_nopad5_n, 30, |c| {
+    let x = one::<100, 2, _>(V5Q, Some((0, 1)), [DRAFT_F, fld(T_UID, 5)], 0, 1, None, None, c);
+    assert!(x == REJ, "v5 field whose padding is missing is refused");
+    kani::cover!(x == REJ, "reached");
+});
+with_nocipher!(c23_t_v5_nopad17_n, 30, |c| {
+    let x = one::<100, 2, _>(V5Q, Some((0, 1)), [DRAFT_F, fld(T_OTHER, 17)], 0, 3, None, None, c);
+    assert!(x == REJ, "v5 field whose padding is missing is refused");
+    kani::cover!(x == REJ, "reached");
+});
+with_nocipher!(c23_t_v5_len3_n, 30, |c| {
+    let x = one::<100, 2, _>(V5Q, Some((0, 1)), [DRAFT_F, fld(T_UID, 8)], 0, 0, Some((1, 3)), None, c);
+    assert!(x == REJ, "length below the field header refused");
+    kani::cover!(x == REJ, "reached");
+});
+with_nocipher!(c23_t_v5_lenmax_n, 30, |c| {
+    let x = one::<100, 2, _>(V5Q, Some((0, 1)), [DRAFT_F, fld(T_UID, 8)], 0, 0, Some((1, 0xFFFF)), None, c);
+    assert!(x == REJ, "length beyond the packet refused");
+    kani::cover!(x == REJ, "reached");
+});
+with_nocipher!(c23_t_v5_refid_short_n, 30, |c| {
+    let x = one::<100, 2, _>(V5Q, Some((0, 1)), [DRAFT_F, fld(T_REFID_REQ, 5)], 0, 0, None, None, c);
+    assert!(x == REJ, "reference id request without room for its offset refused");
+    kani::cover!(x == REJ, "reached");
+});
+with_nocipher!(c23_t_v5_nodraft_n, 30, |c| {
+    let x = one::<76, 2, _>(V5Q, Some((0, 1)), [fld(T_UID, 13), fld(T_OTHER, 7)], 0, 0, None, None, c);
+    assert!(x == REJ, "v5 packet without draft identification refused");
+    kani::cover!(x == REJ, "reached");
+});
+/// draft identification field with symbolic content: accepted iff it is the expected string
+with_nocipher!(c23_t_v5_draft_sym_n, 30, |c| {
+    let img: Img<80, 1> = layout(V5Q, Some((0, 1)), [fld(T_DRAFT, 27)], 0, 0);
+    let code = run(&img, c);
+    let exact = {
+        let mut same = true;
+        macro_rules! cmp { ($($i:expr),*) => { $( if img.buf[52 + $i] != DRAFT[$i] { same = false; } )* } }
+        cmp!(0, 1, 2, 3, 4, 5, 6, 7, 8, 9, 10, 11, 12, 13, 14, 15, 16, 17, 18, 19, 20, 21, 22);
+        same
+    };
+    assert!((code == ACC) == exact, "accepted iff the draft string is the expected one");
+    assert!(code != DEC, "no NTS field");
+    kani::cover!(code == ACC, "expected draft string found by the solver");
+    kani::cover!(code == REJ && img.buf[52] >= 0x80, "non-ASCII draft string");
+});
+with_nocipher!(c23_t_v5_draft_second_n, 30, |c| {
+    let e = one::<92, 2, _>(V5Q, Some((0, 1)), [DRAFT_F, fld(T_DRAFT, 10)], 0, 0, None, None, c);
+    kani::cover!(e == ACC, "second draft field with other ASCII content tolerated");
+    kani::cover!(e == REJ, "second draft field with non-ASCII content refused");
+});
+with_nocipher!(c23_t_v5_draft_first_wrong_n, 30, |c| {
+    let g = one::<92, 2, _>(V5Q, Some((0, 1)), [fld(T_DRAFT, 10), DRAFT_F], 0, 0, None, None, c);
+    assert!(g == REJ, "the first draft identification field decides");
+    kani::cover!(g == REJ, "reached");
+});
+
+// ================================================================== NTS fields
+// RFC 8915 5.6: words nonce length / ciphertext length, nonce, ciphertext. NTPv4: preceded by a
+// 28-byte cookie field (24 bytes of cookie); field length 52 = 8 + 16 + 28, so a 16-byte nonce and
+// a 28-byte ciphertext (12 bytes of plaintext + tag under the oracle model) fit exactly. The two
+// length words are concrete per image; nonce, ciphertext (= plaintext, parsed as a sequence of
+// fields with symbolic type/length words) symbolic.
+const NTS4: [F; 2] = [fld(T_COOKIE, 28), fld(T_NTS, 52)];
+const NTS5: [F; 2] = [DRAFT_F, fld(T_NTS, 50)];
+const NTS5C: [F; 3] = [DRAFT_F, fld(T_COOKIE, 28), fld(T_NTS, 50)];
+macro_rules! nts4 { ($c:expr, $nl:expr, $cl:expr, $t:expr) => { one::<136, 2, _>(V4C, None, NTS4, $t, 0, None, Some((1, $nl, $cl)), $c) } }
+macro_rules! nts5 { ($c:expr, $nl:expr, $cl:expr) => { one::<132, 2, _>(V5Q, Some((0, 1)), NTS5, 0, 0, None, Some((1, $nl, $cl)), $c) } }
+macro_rules! nts5c { ($c:expr, $nl:expr, $cl:expr) => { one::<160, 3, _>(V5Q, Some((0, 1)), NTS5C, 0, 0, None, Some((2, $nl, $cl)), $c) } }
+
+with_nocipher!(c23_t_nts_v4_n, 30, |c| {
+    let ok = nts4!(c, 16, 28, 0);
+    assert!(ok == DEC, "well-formed NTS field without keys: decrypt error, never accepted");
+    kani::cover!(ok == DEC, "reached");
+});
+with_nocipher!(c23_t_nts_v4_long_n, 30, |c| {
+    let long = nts4!(c, 16, 29, 0);
+    assert!(long == REJ, "ciphertext length pointing outside the field refused");
+    kani::cover!(long == REJ, "reached");
+});
+with_nocipher!(c23_t_nts_v4_short_n, 30, |c| {
+    let e = one::<80, 1, _>(V4S, None, [fld(T_NTS, 4)], 24, 0, None, None, c);
+    assert!(e == REJ, "NTS field without its length words refused");
+    kani::cover!(e == REJ, "reached");
+});
+with_nocipher!(c23_t_nts_v5_n, 30, |c| {
+    let ok = nts5!(c, 16, 26);
+    assert!(ok == DEC, "well-formed NTS field without keys: decrypt error, never accepted");
+    kani::cover!(ok == DEC, "reached");
+});
+
+// client session keys
+with_client!(c23_t_nts_v4_c, 12, |c| {
+    let ok = nts4!(c, 16, 28, 0);
+    kani::cover!(ok == ACC, "decrypted, plaintext parsed");
+    kani::cover!(ok == REJ, "decrypted, malformed plaintext");
+    kani::cover!(ok == DEC, "decryption refused");
+});
+with_client!(c23_t_nts_v4_mac_c, 12, |c| {
+    let mac = nts4!(c, 16, 28, 4);
+    let empty = nts4!(c, 16, 16, 0);
+    kani::cover!(mac == ACC, "with trailing MAC");
+    kani::cover!(empty == ACC, "empty plaintext");
+});
+with_client!(c23_t_nts_v4_notag_c, 12, |c| {
+    let short = nts4!(c, 16, 15, 0);
+    assert!(short == DEC, "ciphertext shorter than a tag: never accepted");
+    kani::cover!(short == DEC, "reached");
+});
+with_client!(c23_t_nts_v4_nonce_c, 12, |c| {
+    let odd = nts4!(c, 13, 28, 0);
+    let nonce0 = nts4!(c, 0, 28, 0);
+    assert!(odd == DEC && nonce0 == DEC, "no 16-byte nonce: refused by the cipher model (see assumptions)");
+    kani::cover!(odd == DEC, "reached");
+});
+with_client!(c23_t_nts_v4_huge_c, 12, |c| {
+    let huge = nts4!(c, 0xFFFF, 0xFFFF, 0);
+    assert!(huge == REJ, "length words pointing outside the field refused");
+    kani::cover!(huge == REJ, "reached");
+});
+with_client!(c23_t_nts_v5_c, 12, |c| {
+    let ok = nts5!(c, 16, 26);
+    kani::cover!(ok == ACC, "decrypted, plaintext parsed (ciphertext padded by two bytes)");
+    kani::cover!(ok == DEC, "decryption refused");
+});
+with_client!(c23_t_nts_v5_odd_c, 12, |c| {
+    let odd = nts5!(c, 16, 25);
+    kani::cover!(odd == ACC, "odd ciphertext length");
+});
+with_client!(c23_t_nts_v5_long_c, 12, |c| {
+    let long = nts5!(c, 16, 27);
+    assert!(long == REJ, "ciphertext longer than the field refused");
+    kani::cover!(long == REJ, "reached");
+});
+
+// server cookie keys (real KeySet::get / decode_cookie; AES-SIV stubbed by the oracle model)
+with_keyset!(c23_t_nts_v4_k, 70, |c| {
+    // empty plaintext (ciphertext = tag): the key-size loops of decode_cookie need a large global
+    // unwind bound, which the plaintext field parser would spend on infeasible iterations
+    let ok = nts4!(c, 16, 16, 0);
+    kani::cover!(ok == ACC, "cookie decoded (real decode_cookie), field decrypted");
+    kani::cover!(ok == DEC, "cookie or field refused");
+});
+with_keyset!(c23_t_nts_v4_nocookie_k, 70, |c| {
+    let x = one::<104, 1, _>(V4C, None, [fld(T_NTS, 52)], 0, 0, None, Some((0, 16, 16)), c);
+    assert!(x == DEC, "NTS field without cookie: no key, decrypt error");
+    kani::cover!(x == DEC, "reached");
+});
+with_keyset!(c23_t_nts_v4_twocookies_k, 70, |c| {
+    let x = one::<160, 3, _>(V4C, None, [fld(T_COOKIE, 28), fld(T_COOKIE, 28), fld(T_NTS, 52)], 0, 0, None, Some((2, 16, 16)), c);
+    assert!(x == DEC, "two cookies: no key, decrypt error");
+    kani::cover!(x == DEC, "reached");
+});
+with_keyset!(c23_t_nts_v5_k, 70, |c| {
+    let ok = nts5c!(c, 16, 16);
+    kani::cover!(ok == ACC, "cookie decoded (real decode_cookie), field decrypted");
+    kani::cover!(ok == DEC, "cookie or field refused");
+});
